@@ -90,10 +90,10 @@ def _err(tag, pool):
 
 
 def _case(c, pool):
-    return "(mkCase %s %s %s %s %s %s %s %s)" % (
+    return "(mkCase %s %s %s %s %s %s %s %s %s)" % (
         _config(c["config"], pool), g.lst([pool.s(p) for p in c["readable"]]),
         g.lst(["(%s, %s)" % (pool.s(e["k"]), cg.nat(e["v"])) for e in c["data"]]),
-        g.b(c["out_usable"]), g.b(c["profile_ok"]), g.lst([cg.nat(x) for x in c["outcomes"]]),
+        g.b(c["out_is_file"]), g.b(c["out_creatable"]), g.b(c["profile_dir_ok"]), g.lst([cg.nat(x) for x in c["outcomes"]]),
         g.lst([_err(t, pool) for t in (c["errs"] or [])]), g.lst([pool.s(f) for f in (c["summaries"] or [])]))
 
 
@@ -104,7 +104,7 @@ Open Scope string_scope.
 Definition tables19 : tables := %(tables)s.
 
 (* what the translators found, checked by computation: the mandatory-field conditions the run depends on are present
-   (RunNumber >= 1, ReportEveryNumberOfIterations >= 1, Annealer.Type specified), every condition reads a field the model knows,
+   (1 <= RunNumber <= MaxInt64, ReportEveryNumberOfIterations >= 1), every condition reads a field the model knows,
    every valid annealer type is registered with a real annealer, defaults satisfy the conditions *)
 Theorem C19_facts_ok : facts_ok facts19 = true.
 Proof. vm_compute. reflexivity. Qed.
@@ -124,7 +124,6 @@ Proof. exact (interpret_never_crashes facts19 tables19 C19_tables_ok). Qed.
 
 Theorem C19_crem_accepted_runs_partial : forall E c l sc choices T0 a,
   load facts19 c = Done l -> interpret facts19 tables19 E l = Done sc ->
-  nodupb (map fst (l_annealer_params l)) = true -> nodupb (map fst (l_model_params l)) = true ->
   run_preconditions E sc = true -> choices_ok sc choices ->
   exists summaries, run_model E sc choices T0 a = Completed summaries /\\ List.length summaries = Z.to_nat (l_run_number l)
                     /\\ (1 <= l_run_number l)%%Z.
